@@ -27,7 +27,7 @@ Fixpoint lookup (a : attrs) (k : str) : option val :=
 (* the attributes requested from a node, under the exported keys; absent attribute = None *)
 Definition requested (md : amode) (a : attrs) : attrs :=
   match md with
-  | AllAttrs => a
+  | AllAttrs => filter (fun kv => negb (startswith (fst kv) [95%N])) a     (* all_attrs lists the public attributes only *)
   | AttrDict m => map (fun kv => (snd kv, match lookup a (fst kv) with Some v => v | None => VNone end)) m
   end.
 Definition not_none (a : attrs) : attrs :=
